@@ -113,6 +113,7 @@ class PipeTable:
     def __init__(self, I):
         self.I = I
         self.canon: List[dict] = []     # [{'pipe': SSeq, 'id': n}]
+        self.joins: Dict[int, tuple] = {}   # z3 id of a join observable -> (pipe, separator, const)
         self.obs: Dict[tuple, object] = {}
 
     def canon_id(self, p: SSeq) -> int:
@@ -278,6 +279,7 @@ class PipeTable:
                     I.assume(v == p.src.length)
         elif what == 'join':
             v = z3.String(f'join({extra!r},{base})')
+            self.joins[v.get_id()] = (p, extra, v)       # (kept alive by the entry) lets string rules look into the joined text
             ne = self.observable(p, 'ne')
             I.assume(z3.Implies(z3.Not(ne), v == z3.StringVal('')))
             # if every kept element maps to a non-empty string, a non-empty pipe joins to a non-empty string
